@@ -30,6 +30,10 @@ pub const FAMILIES: &[(&str, u64)] = &[
     ("deep-hints", 3),
     ("hostile-hard", 2),
     ("big", 1),
+    ("many", 1),
+    ("many-hints", 1),
+    ("many-excl", 2),
+    ("many-excl-hints", 1),
 ];
 
 pub struct GraphFacts {
